@@ -49,8 +49,15 @@ def simplify_word(word, inverse_map=invert_gen,
 
     return simp
 
+def _simplify_key(word):
+    # words are strings (one character per generator) or tuples of
+    # generator names; free reduction keeps the type
+    if isinstance(word, str):
+        return simplify_word(word)
+    return tuple(simplify_word(word, as_string=False))
+
 def simplify(zmod):
-    return defaultdict(int, {simplify_word(word):zmod[word] for word in zmod})
+    return defaultdict(int, {_simplify_key(word):zmod[word] for word in zmod})
 
 def aug(zmod):
     return sum(zmod.values())
@@ -73,14 +80,18 @@ def zmod_sum(z1, z2):
     return z_sum
 
 def fox_word_derivative(differential, word):
+    # word: a string (one character per generator) or a tuple of
+    # generator names; differential: a generator name
     if len(word) == 1:
-        if word == differential:
-            return defaultdict(int, {"":1})
-        if word == formal_inverse(differential):
+        if word[0] == differential:
+            return defaultdict(int, {word[:0]:1})
+        if word[0] == invert_gen(differential):
             return defaultdict(int, {word:-1})
         return defaultdict(int, {})
 
+    word[0] # the empty word has no derivative here (IndexError)
+
     return zmod_sum(
-        fox_word_derivative(differential, word[0]),
-        act_left(word[0], fox_word_derivative(differential, word[1:]))
+        fox_word_derivative(differential, word[:1]),
+        act_left(word[:1], fox_word_derivative(differential, word[1:]))
     )
